@@ -41,8 +41,8 @@ theorem C07_repeat (k : MemKind) (s : MemState) (h h' : List MemOp) (hno : ∀ o
     ClearStatistics unchanged to the wrapped memory (regenerated fact), so the theorems above hold
     through any stack of wrappers -/
 theorem C07_wrapped :
-    Generated.WrappingMemory_TakeSnapshot = [("->", "p.mem.TakeSnapshot")] ∧
-    Generated.WrappingMemory_RestoreSnapshot = [("->", "p.mem.RestoreSnapshot")] :=
+    Generated.WrappingMemory_TakeSnapshot = [("->", "<Memory>.TakeSnapshot")] ∧
+    Generated.WrappingMemory_RestoreSnapshot = [("->", "<Memory>.RestoreSnapshot")] :=
   ⟨wrapper_forwards.1, wrapper_forwards.2.1⟩
 
 /-- `copy` silently truncates to the shorter slice: the copy lists only cover a region if the snapshot buffer is
